@@ -63,3 +63,216 @@ theorem verify_wsh_andvPkPk (env : VerifyEnv) (h a b sa sb : Bytes) (hl : h.leng
   exact verify_p2wsh_of env h (andvPkPk a b) [sb, sa] hl hW hnz hh hex
 
 end Btc.Spend.Eval
+
+namespace Btc.Spend.Eval
+
+open Btc Btc.Script Btc.Script.Core
+
+/-- `compile (or_d(pk(A),pkh(B)))` = `<A> CHECKSIG IFDUP NOTIF DUP HASH160 <h_B> EQUALVERIFY CHECKSIG ENDIF` -/
+def ordPkPkh (a hb : Bytes) : Bytes :=
+  0x21 :: (a ++ (0xac :: 0x73 :: 0x64 :: 0x76 :: 0xa9 :: 0x14 :: (hb ++ [0x88, 0xac, 0x68])))
+
+theorem parse_ordPkPkh (a hb : Bytes) (hla : a.length = 33) (hlb : hb.length = 20) :
+    parse (ordPkPkh a hb) =
+      ([⟨0x21, a, 0x21 :: a⟩, ⟨0xac, [], [0xac]⟩, ⟨0x73, [], [0x73]⟩, ⟨0x64, [], [0x64]⟩, ⟨0x76, [], [0x76]⟩,
+        ⟨0xa9, [], [0xa9]⟩, ⟨0x14, hb, 0x14 :: hb⟩, ⟨0x88, [], [0x88]⟩, ⟨0xac, [], [0xac]⟩, ⟨0x68, [], [0x68]⟩], []) := by
+  have t1 : (a ++ (0xac :: 0x73 :: 0x64 :: 0x76 :: 0xa9 :: 0x14 :: (hb ++ [0x88, 0xac, 0x68]))).take 33 = a :=
+    List.take_left' hla
+  have d1 : (a ++ (0xac :: 0x73 :: 0x64 :: 0x76 :: 0xa9 :: 0x14 :: (hb ++ [0x88, 0xac, 0x68]))).drop 33 =
+      0xac :: 0x73 :: 0x64 :: 0x76 :: 0xa9 :: 0x14 :: (hb ++ [0x88, 0xac, 0x68]) := List.drop_left' hla
+  have t2 : (hb ++ [0x88, 0xac, 0x68]).take 20 = hb := List.take_left' hlb
+  have d2 : (hb ++ [0x88, 0xac, 0x68]).drop 20 = [0x88, 0xac, 0x68] := List.drop_left' hlb
+  simp [parse, ordPkPkh, parseOps, getOp, hla, hlb, t1, d1, t2, d2]
+
+/-- left branch: `[sig_A]` -/
+theorem evalWith_ordPkPkh_left (env : VerifyEnv) (a hb sa : Bytes) (hlb : hb.length = 20)
+    (hea : checkSignatureEncoding env.flags sa = .ok ()) (hka : isCompressedPubKey a = true)
+    (hsa : env.checker.checkECDSA sa a (ordPkPkh a hb) .WITNESS_V0 = .ok true) :
+    evalWith (evalCtx env .WITNESS_V0 (ordPkPkh a hb)) [sa] 0 = .ok [[1]] := by
+  have hla : a.length = 33 := by
+    simp only [isCompressedPubKey, Bool.and_eq_true, beq_iff_eq] at hka; exact hka.1
+  have hmina : checkMinimalPush a 33 = true := by
+    have := checkMinimalPush_len a (by omega) (by omega); rwa [hla] at this
+  have hpa := checkPubKeyEncoding_compressed env.flags .WITNESS_V0 a hka
+  have hlen : (ordPkPkh a hb).length = 63 := by simp [ordPkPkh, hla, hlb]
+  have hsa' : env.checker.checkECDSA sa a
+      (33 :: (a ++ 172 :: 115 :: 100 :: 118 :: 169 :: 20 :: (hb ++ [136, 172, 104]))) .WITNESS_V0 = .ok true := hsa
+  have hT : castToBool [1] = true := by decide
+  unfold evalWith
+  simp only [evalCtx, parse_ordPkPkh a hb hla hlb, hlen]
+  simp [ordPkPkh, run, step, stepChecks, stepExec, stepFinish, execPlain, execStackOp, execConditional, evalChecksig,
+    evalChecksigPreTapscript, isDisabled, DISABLED, inConditionalRange, hla, hlb, hmina, hea, hpa, hsa', hT,
+    MAX_SCRIPT_ELEMENT_SIZE, MAX_OPS_PER_SCRIPT, MAX_SCRIPT_SIZE, MAX_STACK_SIZE, OP_IF, OP_NOTIF, OP_ELSE, OP_ENDIF,
+    OP_CODESEPARATOR, OP_CHECKSIG, OP_CHECKSIGVERIFY, ofBool, vchTrue, Except.bind, Except.map, bind, pure, Except.pure]
+
+/-- right branch: `[sig_B, pk_B, <empty>]` (the dissatisfaction of `pk(A)` is the empty signature) -/
+theorem evalWith_ordPkPkh_right (env : VerifyEnv) (a hb b sb : Bytes) (hlb : hb.length = 20)
+    (hh : env.hashes.ripemd160 (env.hashes.sha256 b) = hb)
+    (heb : checkSignatureEncoding env.flags sb = .ok ())
+    (hka : isCompressedPubKey a = true) (hkb : isCompressedPubKey b = true)
+    (hsa : env.checker.checkECDSA [] a (ordPkPkh a hb) .WITNESS_V0 = .ok false)
+    (hsb : env.checker.checkECDSA sb b (ordPkPkh a hb) .WITNESS_V0 = .ok true) :
+    evalWith (evalCtx env .WITNESS_V0 (ordPkPkh a hb)) [[], b, sb] 0 = .ok [[1]] := by
+  have hla : a.length = 33 := by
+    simp only [isCompressedPubKey, Bool.and_eq_true, beq_iff_eq] at hka; exact hka.1
+  have hmina : checkMinimalPush a 33 = true := by
+    have := checkMinimalPush_len a (by omega) (by omega); rwa [hla] at this
+  have hminb : checkMinimalPush hb 20 = true := by
+    have := checkMinimalPush_len hb (by omega) (by omega); rwa [hlb] at this
+  have hpa := checkPubKeyEncoding_compressed env.flags .WITNESS_V0 a hka
+  have hpb := checkPubKeyEncoding_compressed env.flags .WITNESS_V0 b hkb
+  have hlen : (ordPkPkh a hb).length = 63 := by simp [ordPkPkh, hla, hlb]
+  have he0 : checkSignatureEncoding env.flags [] = .ok () := by simp [checkSignatureEncoding]
+  have hsa' : env.checker.checkECDSA [] a
+      (33 :: (a ++ 172 :: 115 :: 100 :: 118 :: 169 :: 20 :: (hb ++ [136, 172, 104]))) .WITNESS_V0 = .ok false := hsa
+  have hsb' : env.checker.checkECDSA sb b
+      (33 :: (a ++ 172 :: 115 :: 100 :: 118 :: 169 :: 20 :: (hb ++ [136, 172, 104]))) .WITNESS_V0 = .ok true := hsb
+  have hF : castToBool [] = false := by decide
+  unfold evalWith
+  simp only [evalCtx, parse_ordPkPkh a hb hla hlb, hlen]
+  simp [ordPkPkh, run, step, stepChecks, stepExec, stepFinish, execPlain, execStackOp, execConditional, hashOp, evalChecksig,
+    evalChecksigPreTapscript, isDisabled, DISABLED, inConditionalRange, hla, hlb, hmina, hminb, he0, heb, hpa, hpb, hsa',
+    hsb', hF, hh, MAX_SCRIPT_ELEMENT_SIZE, MAX_OPS_PER_SCRIPT, MAX_SCRIPT_SIZE, MAX_STACK_SIZE, OP_IF, OP_NOTIF, OP_ELSE,
+    OP_ENDIF, OP_CODESEPARATOR, OP_CHECKSIG, OP_CHECKSIGVERIFY, ofBool, vchTrue, vchFalse, Except.bind, Except.map, bind,
+    pure, Except.pure]
+
+/-- T1 (wsh(or_d(pk(A),pkh(B)))), script level, both satisfactions; ANY flag set with WITNESS -/
+theorem verify_wsh_ordPkPkh_left (env : VerifyEnv) (h a hb sa : Bytes) (hl : h.length = 32) (hlb : hb.length = 20)
+    (hW : has env.flags FLAG_WITNESS = true) (hnz : castToBool h = true)
+    (hh : env.hashes.sha256 (ordPkPkh a hb) = h)
+    (hea : checkSignatureEncoding env.flags sa = .ok ()) (hla : sa.length ≤ 520)
+    (hka : isCompressedPubKey a = true)
+    (hsa : env.checker.checkECDSA sa a (ordPkPkh a hb) .WITNESS_V0 = .ok true) :
+    verifyScript env [] (wshSpk h) [sa, ordPkPkh a hb] = .ok () := by
+  have e := evalWith_ordPkPkh_left env a hb sa hlb hea hka hsa
+  have ha' : ¬ (520 < sa.length) := by omega
+  have hT : castToBool [1] = true := by decide
+  have hex : executeWitnessScript env [sa].reverse (ordPkPkh a hb) .WITNESS_V0 0 = .ok () := by
+    unfold executeWitnessScript
+    simp [MAX_SCRIPT_ELEMENT_SIZE, ha', e, hT, Except.bind, bind, pure, Except.pure]
+  exact verify_p2wsh_of env h (ordPkPkh a hb) [sa] hl hW hnz hh hex
+
+theorem verify_wsh_ordPkPkh_right (env : VerifyEnv) (h a hb b sb : Bytes) (hl : h.length = 32) (hlb : hb.length = 20)
+    (hW : has env.flags FLAG_WITNESS = true) (hnz : castToBool h = true)
+    (hh : env.hashes.sha256 (ordPkPkh a hb) = h) (hhb : env.hashes.ripemd160 (env.hashes.sha256 b) = hb)
+    (heb : checkSignatureEncoding env.flags sb = .ok ()) (hsl : sb.length ≤ 520)
+    (hka : isCompressedPubKey a = true) (hkb : isCompressedPubKey b = true)
+    (hsa : env.checker.checkECDSA [] a (ordPkPkh a hb) .WITNESS_V0 = .ok false)
+    (hsb : env.checker.checkECDSA sb b (ordPkPkh a hb) .WITNESS_V0 = .ok true) :
+    verifyScript env [] (wshSpk h) [sb, b, [], ordPkPkh a hb] = .ok () := by
+  have e := evalWith_ordPkPkh_right env a hb b sb hlb hhb heb hka hkb hsa hsb
+  have hb' : ¬ (520 < sb.length) := by omega
+  have hkl : b.length = 33 := by
+    simp only [isCompressedPubKey, Bool.and_eq_true, beq_iff_eq] at hkb; exact hkb.1
+  have hT : castToBool [1] = true := by decide
+  have hex : executeWitnessScript env [sb, b, []].reverse (ordPkPkh a hb) .WITNESS_V0 0 = .ok () := by
+    unfold executeWitnessScript
+    simp [MAX_SCRIPT_ELEMENT_SIZE, hb', hkl, e, hT, Except.bind, bind, pure, Except.pure]
+  exact verify_p2wsh_of env h (ordPkPkh a hb) [sb, b, []] hl hW hnz hh hex
+
+/-- `compile (and_v(v:pk(A),older(n)))` for `1 ≤ n ≤ 16` = `<A> CHECKSIGVERIFY OP_n CHECKSEQUENCEVERIFY` -/
+def andvPkOlder (a : Bytes) (n : Nat) : Bytes := 0x21 :: (a ++ [0xad, UInt8.ofNat (0x50 + n), 0xb2])
+
+theorem num5_small (cx : Ctx) (c : Nat) (h : 1 ≤ c ∧ c ≤ 16) :
+    num cx (numBytes (c : Int)) LOCKTIME_MAX_NUM_SIZE = .ok (c : Int) := by
+  unfold num
+  cases has cx.flags FLAG_MINIMALDATA <;>
+  rcases small_cases c h with rfl | rfl | rfl | rfl | rfl | rfl | rfl | rfl | rfl | rfl | rfl | rfl | rfl | rfl | rfl | rfl <;>
+  rfl
+
+/-- `[sig_A]` on `<A> CHECKSIGVERIFY OP_n CSV`: leaves `n` (true), given BIP112's comparison holds for this input -/
+theorem evalWith_andvPkOlder_v0 (env : VerifyEnv) (a sa : Bytes) (n : Nat) (hn : 1 ≤ n ∧ n ≤ 16)
+    (hea : checkSignatureEncoding env.flags sa = .ok ()) (hka : isCompressedPubKey a = true)
+    (hsa : env.checker.checkECDSA sa a (andvPkOlder a n) .WITNESS_V0 = .ok true)
+    (hseq : has env.flags FLAG_CHECKSEQUENCEVERIFY = true →
+      checkSequence (evalCtx env .WITNESS_V0 (andvPkOlder a n)) (n : Int) = true) :
+    evalWith (evalCtx env .WITNESS_V0 (andvPkOlder a n)) [sa] 0 = .ok [numBytes (n : Int)] := by
+  have hla : a.length = 33 := by
+    simp only [isCompressedPubKey, Bool.and_eq_true, beq_iff_eq] at hka; exact hka.1
+  have hmina : checkMinimalPush a 33 = true := by
+    have := checkMinimalPush_len a (by omega) (by omega); rwa [hla] at this
+  have hpa := checkPubKeyEncoding_compressed env.flags .WITNESS_V0 a hka
+  have c1 := toNat_opN n hn.2
+  have t1 : (a ++ [0xad, UInt8.ofNat (0x50 + n), 0xb2]).take 33 = a := List.take_left' hla
+  have d1 : (a ++ [0xad, UInt8.ofNat (0x50 + n), 0xb2]).drop 33 = [0xad, UInt8.ofNat (0x50 + n), 0xb2] :=
+    List.drop_left' hla
+  have hp : parse (andvPkOlder a n) =
+      ([⟨0x21, a, 0x21 :: a⟩, ⟨0xad, [], [0xad]⟩, opN n, ⟨0xb2, [], [0xb2]⟩], []) := by
+    have g : ¬ (0x50 + n = 0) ∧ 78 < 0x50 + n := by omega
+    have hm : (80 + n) % 256 = 80 + n := by omega
+    simp [parse, andvPkOlder, parseOps, getOp, hla, t1, d1, hm, opN, g]
+  have hlen : (andvPkOlder a n).length = 37 := by simp [andvPkOlder, hla]
+  have hn5 := num5_small (evalCtx env .WITNESS_V0 (andvPkOlder a n)) n hn
+  have hsa' : env.checker.checkECDSA sa a (33 :: (a ++ [173, UInt8.ofNat (80 + n), 178])) .WITNESS_V0 = .ok true := hsa
+  let cx := evalCtx env .WITNESS_V0 (andvPkOlder a n)
+  have hsv : cx.sigversion = .WITNESS_V0 := rfl
+  -- the first two instructions, explicitly
+  have s12 : run cx [⟨0x21, a, 0x21 :: a⟩, ⟨0xad, [], [0xad]⟩] { m := { stack := [sa], weightLeft := 0 } } =
+      .ok ⟨⟨[], [], 1, 0, 0xFFFFFFFF, 0⟩, [], 35, 2⟩ := by
+    have key : ∀ c : UInt8, env.checker.checkECDSA sa a (33 :: (a ++ [173, c, 178])) .WITNESS_V0 = .ok true →
+        run (evalCtx env .WITNESS_V0 (0x21 :: (a ++ [0xad, c, 0xb2]))) [⟨0x21, a, 0x21 :: a⟩, ⟨0xad, [], [0xad]⟩]
+          { m := { stack := [sa], weightLeft := 0 } } = .ok ⟨⟨[], [], 1, 0, 0xFFFFFFFF, 0⟩, [], 35, 2⟩ := by
+      intro c hc
+      simp [evalCtx, run, step, stepChecks, stepExec, stepFinish, execPlain, execStackOp, evalChecksig,
+        evalChecksigPreTapscript, isDisabled, DISABLED, inConditionalRange, hla, hmina, hea, hpa, hc,
+        MAX_SCRIPT_ELEMENT_SIZE, MAX_OPS_PER_SCRIPT, MAX_STACK_SIZE, OP_IF, OP_ENDIF, OP_CODESEPARATOR, OP_CHECKSIG,
+        OP_CHECKSIGVERIFY, Except.bind, Except.map, bind, pure, Except.pure]
+    exact key _ hsa'
+  obtain ⟨st3, e3, s3⟩ := step_opN cx ⟨⟨[], [], 1, 0, 0xFFFFFFFF, 0⟩, [], 35, 2⟩ n hn rfl (by simp)
+  obtain ⟨m3, vf3, pos3, opos3⟩ := st3
+  obtain ⟨stk3, alt3, oc3, cs3, csp3, wl3⟩ := m3
+  have hstk : stk3 = [numBytes (n : Int)] := s3.stack
+  have halt : alt3 = [] := s3.alt
+  have hoc : oc3 = 1 := s3.opCount
+  have hvf : vf3 = [] := s3.vfExec
+  subst hstk halt hoc hvf
+  have s4 : step cx ⟨⟨[numBytes (n : Int)], [], 1, cs3, csp3, wl3⟩, [], pos3, opos3⟩ ⟨0xb2, [], [0xb2]⟩ =
+      .ok ⟨⟨[numBytes (n : Int)], [], 2, cs3, csp3, wl3⟩, [], pos3 + 1, opos3 + 1⟩ := by
+    have hn5' : num cx (numBytes (n : Int)) LOCKTIME_MAX_NUM_SIZE = .ok (n : Int) := hn5
+    have hbit : ¬ (((n : Int).toNat / 2 ^ 31) % 2 = 1) := by simp; omega
+    have hneg : ¬ ((n : Int) < 0) := by omega
+    cases hf : has env.flags FLAG_CHECKSEQUENCEVERIFY
+    · simp [cx, evalCtx, step, stepChecks, stepExec, stepFinish, execPlain, execStackOp, execCsv, isDisabled, DISABLED,
+        inConditionalRange, hf, MAX_SCRIPT_ELEMENT_SIZE, MAX_OPS_PER_SCRIPT, MAX_STACK_SIZE, OP_IF, OP_ENDIF,
+        OP_CODESEPARATOR, Except.bind, Except.map, bind, pure, Except.pure]
+    · have hs := hseq hf
+      have hs' : checkSequence cx (n : Int) = true := hs
+      have hf' : has cx.flags FLAG_CHECKSEQUENCEVERIFY = true := hf
+      simp [step, stepChecks, stepExec, stepFinish, execPlain, execStackOp, execCsv, isDisabled, DISABLED,
+        inConditionalRange, hf', hsv, hn5', hs', hbit, hneg, MAX_SCRIPT_ELEMENT_SIZE, MAX_OPS_PER_SCRIPT, MAX_STACK_SIZE, OP_IF,
+        OP_ENDIF, OP_CODESEPARATOR, Except.bind, Except.map, bind, pure, Except.pure]
+  have hrun : run cx [⟨0x21, a, 0x21 :: a⟩, ⟨0xad, [], [0xad]⟩, opN n, ⟨0xb2, [], [0xb2]⟩]
+      { m := { stack := [sa], weightLeft := 0 } } =
+      .ok ⟨⟨[numBytes (n : Int)], [], 2, cs3, csp3, wl3⟩, [], pos3 + 1, opos3 + 1⟩ := by
+    have e : [⟨0x21, a, 0x21 :: a⟩, ⟨0xad, [], [0xad]⟩, opN n, (⟨0xb2, [], [0xb2]⟩ : Op)] =
+        [⟨0x21, a, 0x21 :: a⟩, ⟨0xad, [], [0xad]⟩] ++ [opN n, ⟨0xb2, [], [0xb2]⟩] := rfl
+    rw [e, run_append, s12]
+    simp only [Except.bind, run, e3, s4]
+  have es : cx.script = andvPkOlder a n := rfl
+  have hsz : ¬ ((andvPkOlder a n).length > MAX_SCRIPT_SIZE) := by rw [hlen]; simp [MAX_SCRIPT_SIZE]
+  show evalWith cx [sa] 0 = _
+  unfold evalWith
+  simp only [es, hp, hsz, decide_false, Bool.and_false, hrun]
+  simp
+
+/-- T1 (wsh(and_v(v:pk(A),older(n))), `1 ≤ n ≤ 16`), script level: witness `[sig_A, script]` -/
+theorem verify_wsh_andvPkOlder (env : VerifyEnv) (h a sa : Bytes) (n : Nat) (hn : 1 ≤ n ∧ n ≤ 16) (hl : h.length = 32)
+    (hW : has env.flags FLAG_WITNESS = true) (hnz : castToBool h = true)
+    (hh : env.hashes.sha256 (andvPkOlder a n) = h)
+    (hea : checkSignatureEncoding env.flags sa = .ok ()) (hla : sa.length ≤ 520)
+    (hka : isCompressedPubKey a = true)
+    (hsa : env.checker.checkECDSA sa a (andvPkOlder a n) .WITNESS_V0 = .ok true)
+    (hseq : has env.flags FLAG_CHECKSEQUENCEVERIFY = true →
+      checkSequence (evalCtx env .WITNESS_V0 (andvPkOlder a n)) (n : Int) = true) :
+    verifyScript env [] (wshSpk h) [sa, andvPkOlder a n] = .ok () := by
+  have e := evalWith_andvPkOlder_v0 env a sa n hn hea hka hsa hseq
+  have ha' : ¬ (520 < sa.length) := by omega
+  have hT : castToBool (numBytes (n : Int)) = true := by
+    rcases small_cases n hn with rfl | rfl | rfl | rfl | rfl | rfl | rfl | rfl | rfl | rfl | rfl | rfl | rfl | rfl | rfl | rfl <;>
+    decide
+  have hex : executeWitnessScript env [sa].reverse (andvPkOlder a n) .WITNESS_V0 0 = .ok () := by
+    unfold executeWitnessScript
+    simp [MAX_SCRIPT_ELEMENT_SIZE, ha', e, hT, Except.bind, bind, pure, Except.pure]
+  exact verify_p2wsh_of env h (andvPkOlder a n) [sa] hl hW hnz hh hex
+
+end Btc.Spend.Eval
